@@ -291,7 +291,7 @@ func failureOracle(inc *Inc, ex *Expect, victim *RTask, what string, others ...*
 	}
 	files := WorkFiles(s.FS.Root)
 	for port, p := range victim.Outs {
-		if e, ok := files[Abs(p)]; ok && e.Kind == simrt.KFile {
+		if e, ok := files[Abs(p)]; ok && (e.Kind == simrt.KFile || e.Kind == simrt.KSymlink) {
 			return Viol("failed-output-visible", what, "%s of task %s, yet its output %s (port %s) exists at the final path with %q", what, victim.Key, p, port, clip(e.Data))
 		}
 	}
@@ -574,6 +574,12 @@ func init() {
 					}
 				}
 				arg := c.Tape.Choose(simrt.StFault, 6, 0)
+				if vn := w.NodeByName(victim.Proc); mode == simrt.FailOmit && vn != nil && vn.Custom == 0 && c.Tape.Choose(simrt.StFault, 3, 0) == 1 {
+					// ... or leaves a dangling symbolic link where the output should be
+					// (cp from a missing place failed quietly, ln -s made the link): the
+					// declared output does not exist
+					mode = simrt.FailDangling
+				}
 				what = mode.String()
 				fault = &FaultSpec{Key: victim.Key, Mode: mode, Arg: arg}
 			}
